@@ -86,7 +86,38 @@ Third part of the subset (units with "sets": the dependency orderers, the GDSII 
    `From` (derive_more on an enum: the variant with that payload) or an `impl From`; `o.unwrapper(self, msg)` / `self.unwrap(o, msg)` on an
    Option is ok_or; `v.iter().map(|x| f(x)).collect::<Result<Vec<_>, _>>()` is k_map_m (in order, up to the first error); `v.extend(w)` appends;
    `&[a, b, ..]` where a slice is expected is the list; methods of integers / f64 declared in the prelude (`i32::unsigned_abs`) are external;
- * `while` / `loop` are parsed (tools/rustsubset.py) but not translated: a target containing one is reported as FAILED.
+ * `while` / `loop` are parsed (tools/rustsubset.py) but not translated in these units: a target containing one is reported as FAILED.
+Fourth part of the subset (the two file-format codecs: units "gdsw", "gdsr" for gds21/src/write.rs, read.rs, units "lefw", "lefr" for
+lef21/src/write.rs, read.rs; each feature is switched on by a flag of the unit, so the earlier units are generated as before; over [kxops],
+coq/Base/KernelOpsS.v and the slice / loop operators of coq/Base/KernelOpsL.v):
+ * "traits": `trait T { fn f(&self, ..) {..} }` is read like `impl T` with Self the foreign type T_<T> (the default methods of the trait);
+   the required methods are declared in the prelude;
+ * "join": an `if` / `if let` / `match` in statement position none of whose branches returns, breaks or continues is translated ONCE and
+   joined: its value is the tuple of the locals it assigns (KJoin), the rest of the block follows it (no copy of the rest per branch); a
+   match scrutinee is bound by `(fun m__ => ..) scrut`, guard fall-through by flat thunks `let k__n := fun _ : unit => ..`;
+ * "self_state" (monadic self): the receiver of the methods of one type (GdsReader / GdsParser / LefWriter / LefParser) is the STATE of the
+   monad M of the instance, the methods take no self parameter; `self.f` / `self.f = e` / `self.f += 1` go through ext_self_get_<f> /
+   ext_self_put_<f>; "recv_methods": `self.<field>.m(a)` is the declared method `self.<field>_m(a)` (the lexer, the byte source);
+   "fail_methods": calls that return the error value of the function; a `match r { Ok(x) => .., Err(e) => return Err(..) }` is `?`;
+ * loops: `loop {..}` / `while c {..}` are k_loop (Base/KernelOpsL.v) ON FUEL: the body returns ctrl R (ctrl S S) (Brk r = return,
+   Cont (Brk s) = break, Cont (Cont s) = continue) over the tuple S of the locals it assigns; a function that contains a loop, or calls one
+   that does, takes `fuel__ : nat`, callees inside an iteration get the REMAINING fuel (the convention of the models: parse_elem f' ..);
+   running out is k_nofuel (a Section variable); with "fuel_ext" the fuel of a loop is read from the state (ext_loop_fuel);
+   `x = match .. { p => break, q => v };` is the statement match with the assignment pushed into its arms;
+ * integers: `u16`; `b as i16` of a bool; `[x; N]`; `v[a..b]` with literal bounds as a value (k_slice) and as the target of
+   `copy_from_slice` (k_splice); `Vec::with_capacity(e)` evaluates e; `v.try_into()` to `[T; N]` (k_vec_into_arr, N from the declared type);
+   integer-literal patterns are guards; `FromPrimitive::from_u8` / `from_i16` by the expected type (declared in the prelude);
+   turbofish type arguments and `<Vec<T>>::new()` are kept; `use E::{A, B};` / `use E::A;` inside a body;
+ * "builders": for a struct with `#[derive(Builder)]` the builder XBuilder (every field an Option), its setters (`f(v)`; with
+   `#[builder(setter(strip_option))]` the payload; `setter(into)`) and `build()` (`default` / `default = ".."` / missing field -> Err) are
+   SYNTHESISED from the attributes, as derive_builder generates them;
+ * "strings": the templates of `format!` / `format_args_f!` / `format_f!` / `write!`-style macros are parsed (tools/rustsubset.py
+   fmt_pieces) into literal pieces and `{expr}` holes: ext_str_concat of ext_str_lit pieces and ext_display_<T> e (Display by the static
+   type of the hole); `s.push_str(t)`, `v.join(sep)`, `String::new()` / `from`, `char`; "consts": `const`/`static` items of the file as
+   Section variables; `<` / `>` on a foreign type is ext_<T>_lt; `x += e` on a foreign field type is ext add_assign; `enumstr!` items are
+   enums; a block may end in an assignment without `;`;
+ * "extern_in": a callee kept external inside named targets only (GdsPoint::parse_vec inside the element parsers).
+Byte-level IO (`Read` / `Write` / `Seek`, the lexer, `Display` of foreign types, rust_decimal) stays external.
 Anything else (closures elsewhere, string operations, trait objects, ...) is outside the subset: if a TARGET or
 something it calls no longer fits, the script prints `FAILED family=<family> fn=<function>: <where and why>`, leaves that
 function out of the generated file (so the tie lemmas about it no longer build) and exits 1 (a broken tie, DESIGN.md 2.3).
@@ -192,6 +223,32 @@ impl MetalLayer { fn to_layer_period(&self, index: usize, stop: Int) -> LayoutRe
 impl LayerPeriod { fn block(&mut self, start: DbUnits, stop: DbUnits, src: &Ptr<Instance>) -> TrackResult<()>; }
 impl Track { fn cut(&mut self, start: DbUnits, stop: DbUnits, src: &TrackCross) -> TrackResult<()>; }
 impl Track { fn set_net(&mut self, at: DbUnits, assn: &Assign) -> TrackResult<()>; }
+"""
+LEFW_PRELUDE = """
+// write.rs: `write_line(&mut self, args: std::fmt::Arguments)`: one line of text at the current indentation (external)
+impl LefWriter { fn write_line(&mut self, args: String) -> LefResult<()>; fn dest_flush(&mut self) -> LefResult<()>; }
+// write.rs: `impl AddAssign<usize> / SubAssign<usize> for Indent` (the indentation level and its string: external)
+impl Indent { fn add_assign(&mut self, rhs: usize); fn sub_assign(&mut self, rhs: usize); }
+// write.rs: `fn display_option<T: Display>(opt: &Option<T>) -> String`, at the types it is used at
+fn display_option(opt: &Option<LefBlockClassType>) -> String;
+fn display_option(opt: &Option<LefPadClassType>) -> String;
+fn display_option(opt: &Option<LefCoreClassType>) -> String;
+"""
+LEFR_PRELUDE = """
+// the lexer as the parser uses it, the context stack (error reports only), the text of a token (external)
+impl LefParser {
+    fn lex_next_token(&mut self) -> LefResult<Option<Token>>;
+    fn lex_peek_token(&self) -> Option<Token>;
+    fn ctx_push(&mut self, c: LefParseContext);
+    fn ctx_pop(&mut self);
+    fn txt(&self, tok: &Token) -> String;
+}
+// enumstr! (layout21utils): `LefKey::parse` reads a keyword whatever its case
+impl LefKey { fn parse(txt: &str) -> Option<LefKey>; }
+// rust_decimal
+impl LefDecimal { fn from_str(s: &str) -> LefResult<LefDecimal>; }
+// data.rs: `LefPoint::new(x: impl Into<LefDecimal>, y: impl Into<LefDecimal>)`, at the type parse_point passes
+impl LefPoint { pub fn new(x: LefDecimal, y: LefDecimal) -> LefPoint { LefPoint { x, y } } }
 """
 GDSR_PRELUDE = """
 // byteorder::ReadBytesExt on `self.source` (byte-level IO: external)
@@ -382,10 +439,56 @@ UNITS = [
                                       "GdsProperty", "GdsDateTime", "GdsDateTimes", "GdsStruct", "GdsLibrary", "GdsElement", "GdsUnits", "Unsupported"})],
      "alias_only": set(), "prelude": GDSR_PRELUDE,
      "targets": [("gds_read", "GdsRecordType::valid"), ("gds_read", "GdsReader::read_record_header"), ("gds_read", "GdsReader::read_record_content"),
-                 ("gds_read", "GdsReader::read_record")],
-     "generic_inst": {}, "foreign": {"String"}, "aliases": {"str": "String"},
-     "extern": {"GdsReader::read_str", "GdsReader::read_bytes", "GdsReader::read_i16", "GdsReader::read_i32", "GdsReader::read_f64"},
+                 ("gds_read", "GdsReader::read_record"),
+                 # family "gds_parse" (C01, C03, C10): GdsParser, records -> library (`next` / `peek` external: the record-level reader above)
+                 ("gds_parse", "GdsPoint::parse"), ("gds_parse", "GdsPoint::parse_vec"), ("gds_parse", "GdsParser::parse_datetimes"),
+                 ("gds_parse", "GdsParser::parse_property"), ("gds_parse", "GdsParser::parse_strans"),
+                 ("gds_parse", "GdsParser::parse_boundary"), ("gds_parse", "GdsParser::parse_path"), ("gds_parse", "GdsParser::parse_text_elem"),
+                 ("gds_parse", "GdsParser::parse_node"), ("gds_parse", "GdsParser::parse_box"), ("gds_parse", "GdsParser::parse_struct_ref"),
+                 ("gds_parse", "GdsParser::parse_array_ref"), ("gds_parse", "GdsParser::parse_struct"), ("gds_parse", "GdsParser::parse_lib")],
+     "generic_inst": {}, "foreign": {"String"}, "aliases": {"str": "String"}, "builders": True,
+     # `GdsPoint::parse_vec` has its own tie (a length bound on the vector); the element parsers take it as an argument
+     "extern_in": {("GdsParser::parse_%s" % n): {"GdsPoint::parse_vec"} for n in ("boundary", "path", "node", "box", "array_ref")},
+     "extern": {"GdsReader::read_str", "GdsReader::read_bytes", "GdsReader::read_i16", "GdsReader::read_i32", "GdsReader::read_f64",
+                "GdsParser::next", "GdsParser::peek"},
      "result_aliases": {"GdsResult"}, "skip_recv": {"self.ctx"}},
+    # lef21/src/write.rs: LefWriter with MONADIC SELF (indentation and session version are the state, `write_line` external: one line of text);
+    # strings are values of T_String built from literal pieces, `Display` of values (external per type) and concatenation
+    {"name": "lefw", "out": "KernelsLefWriteGen.v", "xops": True, "sets": True, "join": True, "strings": True,
+     "self_state": {"LefWriter"}, "recv_methods": {"self.dest": "dest_"}, "consts": {"V5P4": "LefDecimal"},
+     "files": [("lef21/src/write.rs", {"LefWriter", "LefWriterSession"}),
+               ("lef21/src/data.rs", {"LefLibrary", "LefMacro", "LefMacroClass", "LefForeign", "LefExtension", "LefPin", "LefPinDirection", "LefPinAntennaAttr", "LefPort",
+                                      "LefLayerGeometries", "LefDensityGeometries", "LefDensityRectangle", "LefVia", "LefViaDef", "LefViaDefData", "LefFixedViaDef",
+                                      "LefGeneratedViaDef", "LefRowCol", "LefOffset", "LefViaLayerGeometries", "LefViaShape", "LefLayerSpacing", "LefProperty",
+                                      "LefPropertyRange", "LefPropertyDefinition", "LefGeometry", "LefStepPattern", "LefShape", "LefPoint", "LefMask", "LefDbuPerMicron",
+                                      "LefUnits", "LefSite", "Unsupported", "LefKey", "LefOnOff", "LefClearanceStyle", "LefDefSource", "LefSymmetry", "LefOrient",
+                                      "LefPinUse", "LefPinShape", "LefMacroClassName", "LefPadClassType", "LefEndCapClassType", "LefBlockClassType", "LefCoreClassType",
+                                      "LefPortClass", "LefSiteClass", "LefAntennaModel", "LefPropertyDefinitionObjectType"})],
+     "alias_only": set(), "prelude": LEFW_PRELUDE,
+     "targets": [("lef_write", "LefWriter::format_mask"), ("lef_write", "LefWriter::format_geom"), ("lef_write", "LefWriter::write_geom"),
+                 ("lef_write", "LefWriter::write_layer_geom"), ("lef_write", "LefWriter::write_property"), ("lef_write", "LefWriter::write_density"),
+                 ("lef_write", "LefWriter::write_symmetries"), ("lef_write", "LefWriter::write_macro_class"), ("lef_write", "LefWriter::write_units"),
+                 ("lef_write", "LefWriter::write_site"), ("lef_write", "LefWriter::write_port"), ("lef_write", "LefWriter::write_pin"),
+                 ("lef_write", "LefWriter::write_via_shape"), ("lef_write", "LefWriter::write_via_layer_geom"), ("lef_write", "LefWriter::write_via"),
+                 ("lef_write", "LefWriter::write_macro"), ("lef_write", "LefWriter::format_numeric_prop_def"), ("lef_write", "LefWriter::write_lib")],
+     "generic_inst": {}, "foreign": {"String", "LefDecimal", "Indent"}, "aliases": {"str": "String"},
+     "extern": {"LefWriter::write_line"},
+     "result_aliases": {"LefResult"}, "skip_recv": set()},
+    # lef21/src/read.rs: LefParser with MONADIC SELF (the token stream, the session version, the context stack are the state); the lexer
+    # (`self.lex.next_token()` / `peek_token()`), `txt`, the error helpers and rust_decimal are external; every loop starts with the fuel the
+    # state gives it (ext_loop_fuel)
+    {"name": "lefr", "out": "KernelsLefReadGen.v", "xops": True, "sets": True, "join": True, "strings": True, "builders": True, "fuel_ext": True,
+     "self_state": {"LefParser"}, "fail_methods": {"fail", "fail_msg"}, "recv_methods": {"self.ctx": "ctx_", "self.lex": "lex_"},
+     "files": [("lef21/src/read.rs", {"LefParser", "Token", "SourceLocation", "TokenType", "LefParseContext", "LefParseErrorType"}),
+               ("lef21/src/data.rs", {"LefDensityGeometries", "LefDensityRectangle", "LefPoint", "LefKey"})],
+     "alias_only": set(), "prelude": LEFR_PRELUDE,
+     "targets": [("lef_parse", "LefParser::advance"), ("lef_parse", "LefParser::matches"), ("lef_parse", "LefParser::expect"),
+                 ("lef_parse", "LefParser::peek_key"), ("lef_parse", "LefParser::get_key"), ("lef_parse", "LefParser::expect_key"),
+                 ("lef_parse", "LefParser::parse_ident"), ("lef_parse", "LefParser::parse_number"), ("lef_parse", "LefParser::parse_point"),
+                 ("lef_parse", "LefParser::parse_density")],
+     "generic_inst": {}, "foreign": {"String", "LefDecimal"}, "aliases": {"str": "String"},
+     "extern": {"LefParser::txt"},
+     "result_aliases": {"LefResult"}, "skip_recv": set()},
 ]
 
 INT_TAG = {"isize": "Isize", "usize": "Usize", "i128": "I128", "u64": "U64", "i64": "I64", "i32": "I32", "u32": "U32",
@@ -435,6 +538,9 @@ class World:
             except OSError as ex:
                 raise Unsupported("cannot read %s: %s" % (path, ex))
         out = parse_source(text, rel)
+        for k, v in out.get("enumstr", {}).items():
+            if only is None or k in only:
+                self.__dict__.setdefault("enumstr", {})[k] = v
         for k, v in out["aliases"].items():
             if only is None or k in only:
                 self.aliases[k] = v
@@ -605,6 +711,8 @@ class World:
             if key not in self.assoc_inst:
                 raise Unsupported("the associated type %s of a type parameter is not instantiated for this unit (ASSOC_INST)" % key)
             return self.resolve(self.assoc_inst[key])
+        if k == "named" and ty[1] == "char" and self.unit.get("strings"):
+            return ("char",)        # a Unicode scalar value (its carrier is the integers'; its Display is its own)
         if k == "named":
             sub = self.tparam(ty[1], ctx)
             if sub is not None:
@@ -651,7 +759,7 @@ def cty(ty):
     k = ty[0]
     if k == "f64":
         return "F"
-    if k == "int":
+    if k == "int" or k == "char":
         return "I"
     if k == "bool":
         return "bool"
@@ -703,9 +811,18 @@ def untyped_int(e):
         return untyped_int(e.l) and untyped_int(e.r)
     return False
 
+FMT_ARGS_COUNT = [False]      # set per unit: do the arguments of `format!` count as uses (only where templates are translated)
+
 def names_used(node, acc):
     """identifiers that occur as single-segment paths (and `self`) in an AST"""
     if isinstance(node, N):
+        if node.kind == "fmt" and not FMT_ARGS_COUNT[0]:
+            return acc
+        if node.kind == "fmt":
+            for kind_, x_ in (node.pieces or []):
+                if kind_ == "hole":
+                    names_used(x_, acc)
+            return acc
         if node.kind == "path" and len(node.segs) == 1:
             acc.add(node.segs[0])
         for k, v in node.__dict__.items():
@@ -828,6 +945,30 @@ def unify(a, b):
     if a[0] == b[0] == "tup" and len(a[1]) == len(b[1]):
         return ("tup", tuple(unify(x, y) for x, y in zip(a[1], b[1])))
     raise ValueError
+
+def coq_string(text):
+    """the text of a Coq string literal (Coq reads `""` as one quote; every other character stands for itself)"""
+    return text.replace('"', '""')
+
+def unescape(body, node, g):
+    """the characters of a Rust string literal (the escapes the sources use)"""
+    out, i = "", 0
+    while i < len(body):
+        c = body[i]
+        if c == "\\":
+            n = body[i + 1:i + 2]
+            if n == "n":
+                out += "\n"
+            elif n == "t":
+                out += "\t"
+            elif n in ('"', "\\", "'"):
+                out += n
+            else:
+                g.err(node, "the escape `\\%s` in a string literal is outside the subset" % n)
+            i += 2
+            continue
+        out += c; i += 1
+    return out
 
 def unify_or_none(a, b):
     try:
@@ -979,6 +1120,7 @@ class FnGen:
         self.used_fuel = False
         self.use_names = {}
         self.arr_hint = None
+        self.hint_ty = None
         self.tmp = 0
         self.aux = []
         self.nloop = 0
@@ -1294,6 +1436,12 @@ class FnGen:
                 m.update(dflt)
                 return Val("P", "(%s%s)" % (self.mk(name), "".join(" " + m[f] for f, _ in decl if f in kept)), ("struct", name))
             return self.seq([v for _, v in written], build)
+        if k == "fmt" and self.unit.get("strings"):
+            return self.ex_fmt(e, env)
+        if k == "fmt" and self.x:
+            return Val("P", "kopaque_any", ("opaque",))       # (as `format!` was read before the templates were kept)
+        if k == "str" and self.unit.get("strings") and e.val.startswith('"') and (expect is None or expect == ("foreign", "String")):
+            return self.str_lit(e, unescape(e.val[1:-1], e, self))
         if k == "str":
             if self.sets and "String" in self.w.foreign and expect == ("foreign", "String"):
                 lit = e.val
@@ -1335,6 +1483,55 @@ class FnGen:
             self.err(e, "`return` inside an expression (only as a statement of a block in tail position)")
         self.err(e, "expression kind %s is outside the subset" % k)
 
+    def str_lit(self, node, text):
+        """a string literal as a value of T_String"""
+        self.tr.externs_used.setdefault("ext_str_lit", ("String.string -> T_String", "string literals"))
+        self.tr.foreign_used.add("String")
+        self.tr.need_string = True
+        return Val("P", '(ext_str_lit "%s"%%string)' % coq_string(text), ("foreign", "String"))
+
+    def display(self, v, node):
+        """`Display` of a value (`{x}` in a template, `x.to_string()`): a String is itself; any other type goes through the external
+        ext_display_<Type> (the `Display` impl of the sources / of `enumstr!` / of another crate)"""
+        ty = v.ty
+        if ty == ("foreign", "String"):
+            return v
+        if ty is None:
+            self.err(node, "Display of a diverging expression")
+        if ty[0] in ("struct", "enum", "foreign"):
+            key, cy = ty[1], cty(ty)
+        elif ty[0] == "int":
+            key, cy = "int", "I"
+        elif ty == ("bool",):
+            key, cy = "bool", "bool"
+        elif ty[0] == "char":
+            key, cy = "char", "I"
+        else:
+            self.err(node, "Display of a value of type %r" % (ty,))
+        name = "ext_display_%s" % key
+        self.note_struct(ty)
+        self.tr.foreign_used.add("String")
+        self.tr.externs_used.setdefault(name, ("%s -> T_String" % cy, "impl Display for %s" % key))
+        return self.seq([v], lambda ns: Val("P", "(%s %s)" % (name, ns[0]), ("foreign", "String")))
+
+    def concat(self, vals, node):
+        self.tr.foreign_used.add("String")
+        self.tr.externs_used.setdefault("ext_str_concat", ("(list T_String) -> T_String", "concatenation of strings (format!, push_str)"))
+        return self.seq(vals, lambda ns: Val("P", "(ext_str_concat (%s))" % " :: ".join(ns + ["nil"]), ("foreign", "String")))
+
+    def ex_fmt(self, e, env):
+        """`format!` / `format_f!` / `format_args_f!`: the pieces of the template in order: literal text, `{expr}` holes (inline
+        expressions, parsed like the sources) and `{}` holes (the positional arguments), each under Display"""
+        vals = []
+        if e.pieces is None:
+            self.err(e, "format template outside the subset: %s" % e.why)
+        for kind, x in e.pieces:
+            if kind == "lit":
+                vals.append(self.str_lit(e, x))
+            else:
+                vals.append(self.display(self.ex(x, env), e))
+        return self.concat(vals, e)
+
     def proj(self, sn, fname, term, node):
         decl = dict(self.w.structs[sn])
         if fname not in decl:
@@ -1353,6 +1550,8 @@ class FnGen:
         if x.kind in ("str",):
             return True
         if x.kind == "macro" and x.name == "format":
+            return True
+        if x.kind == "fmt":
             return True
         if place_text(x) is not None:
             return True
@@ -1509,6 +1708,17 @@ class FnGen:
                 return Val("P", "None", ("opt", None))
             if nm in self.use_names and self.use_names[nm] in self.w.enums:
                 return self.variant_value(self.use_names[nm], nm, [], [], env, e)
+            if nm in self.unit.get("consts", {}):
+                # a `static` / `lazy_static!` of the sources: an external constant
+                ty = self.res(parse_type_text(self.unit["consts"][nm]), e)
+                self.tr.externs_used.setdefault("ext_const_%s" % nm, (cty(ty), "static %s" % nm))
+                return Val("P", "ext_const_%s" % nm, ty)
+            if nm == "self" and self.mon_name is not None and self.mon_name in self.w.structs:
+                # monadic self: the fields of the state are read through ext_self_get
+                ty = ("struct", self.mon_name)
+                self.structs_used.add(self.mon_name)
+                self.tr.self_getput = ty
+                return Val("M", "ext_self_get", ty)
             self.err(e, "unknown name %s" % nm)
         if self.x and len(segs) == 2:
             en = segs[0]
@@ -1561,6 +1771,19 @@ class FnGen:
         if op in ("==", "!=", "<", "<=", ">", ">="):
             l, r = self.operands(e, env, None)
             ty = self.same(l.ty, r.ty, e, "comparison")
+            if self.unit.get("strings") and ty is not None and ty[0] == "foreign" and op in ("<", "<=", ">", ">="):
+                # PartialOrd of a type of another crate: the external strict order (a <= b read as not (b < a): total orders only)
+                nm_ = "ext_%s_lt" % ty[1]
+                self.tr.externs_used.setdefault(nm_, ("%s -> %s -> bool" % (cty(ty), cty(ty)), "impl PartialOrd for %s: `<`" % ty[1]))
+                def build_f(ns):
+                    t = {"<": "(%s %s %s)" % (nm_, ns[0], ns[1]), ">": "(%s %s %s)" % (nm_, ns[1], ns[0]),
+                         "<=": "(negb (%s %s %s))" % (nm_, ns[1], ns[0]), ">=": "(negb (%s %s %s))" % (nm_, ns[0], ns[1])}[op]
+                    return Val("P", t, ("bool",))
+                return self.seq([l, r], build_f)
+            if self.unit.get("strings") and ty is not None and ty[0] == "opt" and op in ("==", "!=") and (e.l.kind == "path" and e.l.segs == ["None"] or e.r.kind == "path" and e.r.segs == ["None"]):
+                other = l if (e.r.kind == "path" and e.r.segs == ["None"]) else r
+                tf = ("false", "true") if op == "==" else ("true", "false")
+                return self.seq([other], lambda ns: Val("P", "(match %s with Some _ => %s | None => %s end)" % (ns[0], tf[0], tf[1]), ("bool",)))
             if self.x and ty is not None and ty[0] in ("struct", "enum"):
                 if op in ("==", "!="):
                     def build_eq(ns):
@@ -1700,6 +1923,12 @@ class FnGen:
             if head in self.w.structs and head not in self.w.bad_structs and "Default" in self.w.meta[head]["derives"] \
                     and "%s::default" % head not in self.w.fns:
                 return Val("P", self.default_term(("struct", head), e), ("struct", head))
+        if self.unit.get("strings") and segs == ["String", "new"] and not e.args:
+            return self.str_lit(e, "")
+        if self.unit.get("strings") and segs == ["String", "from"] and len(e.args) == 1:
+            return self.ex(e.args[0], env, ("foreign", "String"))
+        if segs == ["Vec", "new"] and not e.args and self.unit.get("join") and getattr(e, "targs", None) and len(e.targs) == 1:
+            return Val("P", "nil", ("vec", self.res(e.targs[0], e)))
         if segs == ["Vec", "new"] and not e.args:
             if self.sets and expect is None and getattr(self, "hint_ty", None) is not None and self.hint_ty[0] == "vec":
                 expect = self.hint_ty
@@ -1714,6 +1943,8 @@ class FnGen:
                         self.err(e, "the capacity of %s::with_capacity must be an expression without effects" % segs[0])
                     cap = c       # evaluated for its effect (an overflow of the arithmetic), the value is not used
             kind = {"Vec": "vec", "HashSet": "hset", "HashMap": "hmap"}[segs[0]]
+            if expect is None and kind == "vec" and getattr(e, "targs", None) and len(e.targs) == 1 and self.unit.get("join"):
+                expect = ("vec", self.res(e.targs[0], e))       # `Vec::<T>::with_capacity(n)`
             if expect is None:
                 expect = getattr(self, "hint_ty", None)      # `let x = HashMap::new();`: the type of the field / parameter x goes to
             if expect is None or expect[0] != kind or any(t is None for t in expect[1:]):
@@ -1870,6 +2101,18 @@ class FnGen:
                 b = self.ex(e.recv.args[0].body, env2)
                 if b.ty is not None and b.ty[0] == "res":
                     return self.seq([base], lambda ns: Val("M", "(k_map_m ops (fun %s => %s) %s)" % (mangle(cp.name), b.term, ns[0]), ("res", ("vec", b.ty[1]))))
+        if self.unit.get("strings") and name == "join" and len(e.args) == 1:
+            r0 = self.ex(e.recv, env)
+            if r0.ty is not None and r0.ty == ("vec", ("foreign", "String")):
+                sep = self.ex(e.args[0], env, ("foreign", "String"))
+                self.tr.externs_used.setdefault("ext_str_join", ("T_String -> (list T_String) -> T_String", "[String]::join"))
+                return self.seq([r0, sep], lambda ns: Val("P", "(ext_str_join %s %s)" % (ns[1], ns[0]), ("foreign", "String")))
+        if self.unit.get("strings") and name in ("to_string", "to_str", "to_owned", "as_str", "into", "clone") and not e.args:
+            r0 = self.ex(e.recv, env, ("foreign", "String") if e.recv.kind == "str" else None)
+            if r0.ty == ("foreign", "String"):
+                return r0
+            if name in ("to_string", "to_str") and r0.ty is not None and r0.ty[0] in ("struct", "enum", "foreign", "int"):
+                return self.display(r0, e)
         if self.unit.get("join") and name == "ok_or" and len(e.args) == 1 and expect is not None and expect[0] == "res" and expect[1] is not None:
             r = self.ex(e.recv, env, ("opt", expect[1]))
         else:
@@ -2154,6 +2397,19 @@ class FnGen:
             if v.ty[0] == "tryres":
                 self.err(s, "a try_from result must be unwrapped at once")
             return self.let_(s.pat, v, lambda env2: self.stmts(rest, env2, K), env, s)
+        if k == "assign" and self.mon_name is not None and s.lhs.kind != "tuple" and lvalue_root(s.lhs) == "self" and "self" not in env \
+                and self.mon_name in self.w.structs:
+            # monadic self: `self.f op= e;` reads the state, changes the field, writes the state back
+            ty = ("struct", self.mon_name)
+            self.structs_used.add(self.mon_name)
+            self.tr.self_getput = ty
+            env2 = dict(env); env2["self"] = ty
+            inner = self.stmts([s, N("selfput", s.line)] + list(rest), env2, K)
+            return Val("M", "(k_bind ops ext_self_get (fun self => %s))" % self.toM(inner), inner.ty)
+        if k == "selfput":
+            env2 = {k_: v_ for k_, v_ in env.items() if k_ != "self"}
+            r_ = self.stmts(rest, env2, K)
+            return Val("M", "(k_bind ops (ext_self_put self) (fun _ => %s))" % self.toM(r_), r_.ty)
         if k == "assign" and self.unit.get("join") and s.op == "=" and s.rhs.kind in ("match", "if", "block") and self.needs_push(s.rhs):
             return self.stmts([N("exprstmt", s.line, e=self.push_assign(s.rhs, s.lhs), semi=True)] + list(rest), env, K)
         if k == "assign":
@@ -2172,6 +2428,8 @@ class FnGen:
                 self.glob_enums.add(s.segs[-1])       # `use E::*;`: the variants of E may be written without `E::`
             for n_ in getattr(s, "names", None) or []:
                 self.use_names[n_] = s.segs[-1]       # `use E::{A, B};`
+            if not s.glob and not getattr(s, "names", None) and len(s.segs) >= 2 and s.segs[-2] in self.w.enums:
+                self.use_names[s.segs[-1]] = s.segs[-2]       # `use E::A;`
             return self.stmts(rest, env, K)
         if k == "while" and self.sets:
             return self.while_(s, rest, env, K)
@@ -2355,6 +2613,14 @@ class FnGen:
                 newv = self.seq([cur, a], lambda ns: Val("M", "(k_copy_from_slice ops %s %s)" % (ns[0], ns[1]), t))
                 return self.store(c.recv, newv, rest, env, K, s)
             return None
+        if c.kind == "mcall" and not tried and c.name == "push_str" and len(c.args) == 1 and self.unit.get("strings"):
+            t = self.place_ty(c.recv, env)
+            if t == ("foreign", "String"):
+                cur = self.ex(c.recv, env)
+                a = self.ex(c.args[0], env, t)
+                self.same(t, a.ty, c, ".push_str")
+                return self.store(c.recv, self.concat([cur, a], c), rest, env, K, s)
+            return None
         if c.kind == "mcall" and not tried and c.name == "extend" and len(c.args) == 1:
             t = self.place_ty(c.recv, env)
             if t is not None and t[0] == "vec":
@@ -2477,6 +2743,10 @@ class FnGen:
             brk = K.ret(Val("P", "v__", K.ret_ty), env)
         ty = after.ty if after.ty is not None else brk.ty
         loop = "(k_loop ops (k_nofuel _) fuel__ %s %s)" % (bodyf, tup(state))
+        if self.unit.get("fuel_ext"):
+            # the fuel of a loop is what the state says when the loop is entered (external: the models take it off the unread input)
+            self.tr.externs_used.setdefault("ext_loop_fuel", ("M nat", "the fuel a `loop` / `while` starts with"))
+            loop = "(k_bind ops ext_loop_fuel (fun fuel__ => %s))" % loop
         cont_pat = "_" if not state else tup(state) if len(state) == 1 else "st__"
         cont = "(let '%s := st__ in %s)" % (tup(state), self.toM(after)) if len(state) > 1 else self.toM(after)
         return Val("M", "(k_bind ops %s (fun r__ => match r__ with Brk v__ => %s | Cont %s => %s end))" % (loop, self.toM(brk), cont_pat, cont), ty)
@@ -2488,7 +2758,7 @@ class FnGen:
             return acc
         def walk(n):
             if isinstance(n, N):
-                if n.kind == "mcall" and n.name in ("remove", "extend", "copy_from_slice"):
+                if n.kind == "mcall" and n.name in ("remove", "extend", "copy_from_slice", "push_str"):
                     r = lvalue_root(n.recv)
                     if r:
                         acc.append(r)
@@ -2533,6 +2803,14 @@ class FnGen:
         bound = let_names(inner, set())
         used = names_used(rest, set())
         clash = bound & used
+        if clash and self.unit.get("join"):
+            # the names bound inside the branch get fresh ones there (the rest of the block keeps the outer names)
+            ren = {}
+            for nm in sorted(clash):
+                self.nhoist += 1
+                ren[nm] = "%s__b%d" % (nm, self.nhoist)
+                rename_var(inner, nm, ren[nm])
+            return ren
         if clash:
             self.err(node, "the names %s are bound inside a branch and used after it (shadowing across the branch is outside the subset)" % sorted(clash))
 
@@ -2589,7 +2867,12 @@ class FnGen:
             then = self.as_stmts(then)
         if rest and not tail and self.joinable([then, els]):
             return self.join_(e, [then, els], rest, env, K)
-        self.no_capture(then, rest, e)
+        ren = self.no_capture(then, rest, e)
+        if ren and e.letvar in ren:
+            e.letvar = ren[e.letvar]        # (the name bound by `if let` is one of those renamed in its branch)
+        if ren and getattr(e, "letpat", None) is not None:
+            for old_, new_ in ren.items():
+                rename_var(e.letpat, old_, new_)
         self.no_capture(els, rest, e)
         if getattr(e, "letpat", None) is not None:
             l2 = e.line
@@ -2600,7 +2883,7 @@ class FnGen:
             if c.ty is None or c.ty[0] != "opt":
                 self.err(e, "`if let Some(..)` on a value of type %r" % (c.ty,))
             if e.letvar in names_used(rest, set()) and e.letvar in env and rest:
-                if not self.unit.get("traits"):
+                if not (self.unit.get("traits") or self.unit.get("join")):
                     self.err(e, "`if let` shadows %s, which is used after the if" % e.letvar)
                 # the rest of the block goes into the branch: the bound name gets a fresh one inside the branch
                 self.nhoist += 1
@@ -2840,9 +3123,22 @@ class FnGen:
             stm = list(body.stmts) if body.kind == "block" else [N("exprstmt", body.line, e=body, semi=False)]
             if not tail:
                 stm = self.as_stmts(stm)
-            self.no_capture(stm, rest, e)
+            ren = self.no_capture(stm, rest, e)
+            for old_, new_ in (ren or {}).items():
+                rename_var(pat, old_, new_)
+                if guard is not None:
+                    rename_var(guard, old_, new_)
             clash = pat_names(pat, set()) & used_after
-            if clash and rest:
+            if clash and rest and self.unit.get("join"):
+                # the rest of the block goes into the arm: the names the pattern binds get fresh ones inside the arm
+                for nm in sorted(clash):
+                    self.nhoist += 1
+                    new = "%s__p%d" % (nm, self.nhoist)
+                    rename_var(pat, nm, new)
+                    if guard is not None:
+                        rename_var(guard, nm, new)
+                    rename_var(stm, nm, new)
+            elif clash and rest:
                 self.err(e, "the names %s are bound by a pattern and used after the match" % sorted(clash))
             arms.append((pat, guard, stm))
         def build(ns):
@@ -2912,7 +3208,7 @@ class FnGen:
                 term = "(let %s := (fun _ : unit => %s) in %s)" % (kn, kb, term)
             if prefix is not None and self.unit.get("join"):
                 # (a `let`-bound scrutinee makes Coq's compilation of the nested matches explode: bound by a function instead)
-                term = "((fun %s => %s) %s)" % (prefix[0], term, prefix[1])
+                term = "((fun %s : %s => %s) %s)" % (prefix[0], cty(sc.ty), term, prefix[1])
             elif prefix is not None:
                 term = "(let %s := %s in %s)" % (prefix[0], prefix[1], term)
             return Val("P" if pure else "M", term, ty)
@@ -3050,7 +3346,7 @@ class FnGen:
         found = []
         def walk(n):
             if isinstance(n, N):
-                if n.kind == "mcall" and n.name in MUTATORS + ("extend", "remove") and lvalue_root(n.recv) is not None:
+                if n.kind == "mcall" and n.name in MUTATORS + ("extend", "remove", "push_str") and lvalue_root(n.recv) is not None:
                     found.append(n)
                 for k_, v_ in n.__dict__.items():
                     if k_ not in ("kind", "line"):
@@ -3168,10 +3464,24 @@ class FnGen:
             else:
                 newv = Val("P", "(k_pop %s)" % cur.term, cur.ty)
         else:
-            rhs = self.ex(s.rhs, env, cur.ty)
-            self.same(cur.ty, rhs.ty, s, "assignment")
+            compound_impl = (s.op != "=" and cur.ty[0] in ("struct", "enum", "foreign") and self.unit.get("strings")
+                             and "%s::%s_assign" % (cur.ty[1], OP_METHOD[s.op[0]]) in self.w.fns)
+            rhs = None if compound_impl else self.ex(s.rhs, env, cur.ty)
+            if not compound_impl:
+                self.same(cur.ty, rhs.ty, s, "assignment")
             if s.op == "=":
                 newv = rhs
+            elif cur.ty[0] in ("struct", "enum", "foreign") and self.unit.get("strings") and "%s::%s_assign" % (cur.ty[1], OP_METHOD[s.op[0]]) in self.w.fns:
+                # `impl AddAssign<T> for S`: `a += b` is `a.add_assign(b)`, the new value of a
+                fa = self.w.fns["%s::%s_assign" % (cur.ty[1], OP_METHOD[s.op[0]])]
+                rhs = self.ex(s.rhs, env, self.tr.signature(fa)["params"][1][1])
+                if self.is_extern(fa):
+                    head = "ext_" + self.tr.uname(fa).replace("::", "_")
+                    self.tr.use_extern(fa, self)
+                else:
+                    self.tr.need_fn(fa)
+                    head = "g_" + self.tr.uname(fa).replace("::", "_")
+                newv = self.seq([cur, rhs], lambda ns: Val("M", "(%s %s %s)" % (head, ns[0], ns[1]), cur.ty))
             elif cur.ty[0] in ("struct", "enum", "foreign"):
                 f, _ = self.pick_overload(cur.ty[1], OP_METHOD[s.op[0]], s.rhs, env, s)
                 newv = self.emit_call(f, [s.rhs], cur, env, s, arg_vals=[rhs])
@@ -3241,7 +3551,7 @@ class FnGen:
         bodyf = "(fun %s st__ => %s%s%s %s st__)" % (mangle(lv), lname, " fuel__" if self.fueled else "", "".join(" " + mangle(n) for n in free), mangle(lv))
         after_env = dict(env)
         after = self.stmts(rest, after_env, K)
-        if self.sets and isinstance(K, KValue) and not has_kind(body, "return"):
+        if self.sets and isinstance(K, (KValue, KJoin)) and not has_kind(body, "return"):
             # a loop inside a block used as a value, without `return` in its body: it never leaves through Brk
             brk = Val("M", "(k_panic ops)", None)
         elif self.x and K.ret_ty is not None and K.ret_ty[0] == "res":
@@ -3360,6 +3670,7 @@ class KLoop(KNoLoop):
 class Translator:
     def __init__(self, unit=None, used_prev=None):
         self.unit = unit or UNITS[0]
+        FMT_ARGS_COUNT[0] = bool(self.unit.get("strings"))
         self.x = bool(self.unit.get("xops"))
         self.w = World(self.unit)
         for rel in self.unit["files"]:
@@ -3606,7 +3917,7 @@ class Translator:
 
     def needs_fuel(self, f):
         """does f contain a `while` / `loop`, or call (as far as names tell) a function of the unit that does?"""
-        if not self.unit.get("join"):
+        if not self.unit.get("join") or self.unit.get("fuel_ext"):
             return False
         memo = self.__dict__.setdefault("fuel_memo", {})
         key = id(f)
@@ -3693,7 +4004,7 @@ class Translator:
                 unify(v.ty, real_ret)
             except ValueError:
                 raise Unsupported("%s:%d: fn %s: body of type %r, declared %r" % (f.fname, f.line, f.name, v.ty, real_ret))
-            if g.mut_self and not sig["mut_self"]:
+            if g.mut_self and not sig["mut_self"] and g.mon_name is None:
                 raise Unsupported("%s:%d: fn %s: a `&mut self` method that returns a value and assigns to self" % (f.fname, f.line, f.name))
         elif v.ty is not None and v.ty != real_ret and not (real_ret == ("unit",) and v.ty == ("unit",)):
             raise Unsupported("%s:%d: fn %s: body of type %r, declared %r" % (f.fname, f.line, f.name, v.ty, real_ret))
@@ -3876,6 +4187,9 @@ def run_unit(unit):
             L += ["(* types of other crates / types the models keep abstract *)",
                   "Variables %s : Type." % " ".join("T_" + n for n in sorted(tr.foreign_used)), ""]
         L += structs
+        if getattr(tr, "self_getput", None) is not None:
+            st_ = cty(tr.self_getput)
+            L += ["(* monadic self: the state of the effect, read and written *)", "Variable ext_self_get : M %s." % st_, "Variable ext_self_put : %s -> M unit." % st_, ""]
         if getattr(tr, "need_nofuel", False):
             L += ["(* what running out of fuel in a `loop` / `while` is *)", "Variable k_nofuel : forall A : Type, M A.", ""]
         for name in sorted(tr.externs_used):
